@@ -17,6 +17,10 @@ HARNESS = os.path.join(VERIF, "harness")
 SPECS = os.path.join(VERIF, "specs")
 EVID = os.path.join(VERIF, "evidence")
 REPLAYS = os.path.join(VERIF, "replays")
+if REPO != "/repo":     # runs against a scratch worktree (mutants, proposed repairs) keep their scratch, evidence and replays apart
+    WORK = os.path.join(VERIF, "work", "alt-" + hashlib.sha1(REPO.encode()).hexdigest()[:10])
+    EVID = os.path.join(WORK, "evidence")
+    REPLAYS = os.path.join(WORK, "replays")
 KNOWN = os.path.join(VERIF, "known_findings.txt")
 TLA_CP = "/opt/veriftools/tla/tla2tools.jar:/opt/veriftools/tla/CommunityModules-deps.jar"
 NCPU = os.cpu_count() or 4
